@@ -73,7 +73,7 @@ def invariants(case, lines):
 
 
 def gen_cases(tier, seed, configs):
-    n = 500 if tier == "quick" else 6000
+    n = 500 if tier == "quick" else 40000
     cases = []
     for k in range(n):
         r = gen.rng(seed, "C07", k)
@@ -159,7 +159,7 @@ def run(rep, tier, seed, replay, proof_ok, proof_msg):
     corefam.standard_run(rep, tier, seed, replay, proof_ok, proof_msg, gen_cases, evaluate)
     if not replay:
         cov_core = dict(rep.cov)
-        ftree.standard(rep, tier, seed, None, True, "", "C07", 120, 1500, True, evaluate_history, export=False)
+        ftree.standard(rep, tier, seed, None, True, "", "C07", 120, 12000, True, evaluate_history, export=False)
         hist = dict(rep.cov)
         rep.cov.clear()
         rep.cov.update(cov_core)
